@@ -74,6 +74,23 @@ func emitDerived(out *Out, g *DocGen, root *ANode, hs HSpec, r *Rng) {
 			if err != nil || k2.Cmp(wantK) != 0 {
 				why = append(why, fmt.Sprintf("Options().NewPath(%v) does not hash with the configured hasher", parts))
 			}
+			// (b') the same path assembled in steps: the first part prepended, the last part appended
+			if len(parts) >= 2 {
+				if pp, err := mz.Options().NewPath(parts[1:]...); err == nil {
+					if err := pp.Prepend(parts[0]); err == nil {
+						if kk, err := pp.MtEntry(); err != nil || kk.Cmp(wantK) != 0 {
+							why = append(why, fmt.Sprintf("a path made through the options and completed with Prepend (%v) does not hash with the configured hasher", parts))
+						}
+					}
+				}
+				if pa, err := mz.Options().NewPath(parts[:len(parts)-1]...); err == nil {
+					if err := pa.Append(parts[len(parts)-1]); err == nil {
+						if kk, err := pa.MtEntry(); err != nil || kk.Cmp(wantK) != 0 {
+							why = append(why, fmt.Sprintf("a path made through the options and completed with Append (%v) does not hash with the configured hasher", parts))
+						}
+					}
+				}
+			}
 			// (c) an entry created through the options
 			val := e.VerifValue()
 			e2, err := mz.Options().NewRDFEntry(p2, val)
